@@ -227,6 +227,24 @@ def computeOutput (c : Captured) (mode : ResMode) (shape : ShapeReq) (tight : Bo
     | .error e => .error e
     | .ok res => (fromBbox c.bbox shape res anchor tight tol).map Out.grid
 
+/-! ### the linear case: destination CRS = source CRS (or any affine change of coordinates) -/
+
+/-- the four corners of the source extent in world coordinates (`polygon_from_transform`, geom.py) -/
+def extentCorners (A : Aff) (nx ny : Nat) : List (Rat × Rat) :=
+  [A.apply (0, 0), A.apply ((nx : Rat), 0), A.apply ((nx : Rat), (ny : Rat)), A.apply (0, (ny : Rat))]
+
+def BBox.contains (b : BBox) (p : Rat × Rat) : Prop :=
+  b.left ≤ p.1 ∧ p.1 ≤ b.right ∧ b.bottom ≤ p.2 ∧ p.2 ≤ b.top
+
+/-- bounding box of the extent buffered by `buf ≥ 0` for an axis-aligned / right-angle source (for a
+generally rotated source shapely's rounded corners give a slightly smaller box that still contains the
+corners) -/
+def linearFootprintBBox (A : Aff) (nx ny : Nat) (buf : Rat) : BBox :=
+  let xs := (extentCorners A nx ny).map (·.1)
+  let ys := (extentCorners A nx ny).map (·.2)
+  ⟨xs.foldl min (A.apply (0, 0)).1 - buf, ys.foldl min (A.apply (0, 0)).2 - buf,
+   xs.foldl max (A.apply (0, 0)).1 + buf, ys.foldl max (A.apply (0, 0)).2 + buf⟩
+
 /-! ### crs.py: `norm_crs` utm / utm-n / utm-s, `_pick_best_crs` -/
 
 inductive UtmReq where
